@@ -157,7 +157,7 @@ def _ifb_key(src, kind):
 def corpus_traces(bld, tests):
     """assemble golden tests with stmt events; map to CondAsm_Trace events"""
     def one(t):
-        res = aslrun.assemble_corpus(bld, t, events="file,stmt")
+        res = aslrun.assemble_corpus(bld, t, events="file,stmt,emit")
         import shutil
         shutil.rmtree(res.dir, ignore_errors=True)
         return t[0], res
@@ -191,6 +191,57 @@ def to_cond_events(trace):
                 a = "OTHER"
             cur.append({"a": a, "argc": e["argc"], "ifasm": bool(e["ifasm"]), "stk": e["ifs"], "errs": e["errs"]})
     return execs
+
+
+AB_CLASS = {"ORG": "ORG", "RORG": "RORG", "SEGMENT": "SEGMENT", "CPU": "CPU", "PHASE": "PHASE", "DEPHASE": "DEPHASE",
+            "SAVE": "SAVE", "RESTORE": "RESTORE", "STRUCT": "STRUCT", "STRUC": "STRUCT", "UNION": "UNION",
+            "ENDSTRUCT": "ENDSTRUCT", "ENDSTRUC": "ENDSTRUCT", "ENDS": "ENDSTRUCT", "ENDUNION": "ENDSTRUCT"}
+
+
+def to_core_events(trace):
+    """stmt + emit/reserve/retract hook records -> per-statement events for the composed AsCore_Trace
+    (regrouping only: the chunk records between two stmt records belong to the later statement)"""
+    execs = []
+    cur = None
+    chunks = []
+    for e in trace:
+        k = e["e"]
+        if k == "pass_begin":
+            cur = []
+            chunks = []
+            execs.append(({"ca": "RESET", "seg": e["seg"], "pc": e["pc"]}, cur))
+        elif cur is None:
+            continue
+        elif k == "emit":
+            chunks.append({"k": "E", "seg": e["seg"], "addr": e["addr"], "n": e["n"] // max(e["gran"], 1)})
+        elif k == "reserve":
+            chunks.append({"k": "R", "seg": e["seg"], "addr": e["addr"], "n": e["n"]})
+        elif k == "retract":
+            chunks.append({"k": "X", "seg": e["seg"], "addr": e["addr"], "n": e["n"] // max(e["gran"], 1)})
+        elif k == "stmt":
+            op = e["op"].upper()
+            if e["rec"]:
+                ca = "OTHER"
+            elif e["wasif"]:
+                ca = IFOPS.get(op, "OTHER")
+            elif e["wasmac"] and op == "EXITM":
+                ca = "EXITM"
+            else:
+                ca = "OTHER"
+            skip = (not e["ifasm"]) or e["rec"] or e["wasmac"] or e["wasif"]
+            cb = "OTHER" if skip else AB_CLASS.get(op, "OTHER")
+            cur.append({"ca": ca, "cb": cb, "rec": bool(e["rec"]), "argc": e["argc"], "ifasm": bool(e["ifasm"]),
+                        "stk": e["ifs"], "errs": e["errs"], "chunks": chunks, "seg": e["seg"], "pc": e["pc"],
+                        "ph": e["ph"], "phd": e["phd"], "svd": e["svd"], "std": e["std"], "len": e["len"]})
+            chunks = []
+    return execs
+
+
+def core_too_big(ex):
+    lim = 2 ** 30
+    r, evs = ex
+    return r["pc"] >= lim or any(e["pc"] >= lim or abs(e["ph"]) >= lim or any(c["addr"] >= lim for c in e["chunks"])
+                                 for e in evs)
 
 
 def main(tier):
@@ -271,6 +322,41 @@ def main(tier):
             # a finer prediction of the model failed on a real run.  Property-level only if the
             # observable selection is affected; otherwise it is a drift of the specification.
             rep.drift("corpus test %s: %s" % (names[v.fail_exec], v.detail))
+        # composed validation: every statement is one step of CondAsm AND AddrBook at once, plus the cross-machine
+        # claims SkippedIsInert / RecordedIsInert / IfFamilyIsAddressNeutral (spec/AsCore_Trace.tla)
+        cexecs, cresets, cnames, classes = [], [], [], {}
+        for name, res in ctr:
+            if res.trace is None:
+                continue
+            for ex in to_core_events(res.trace):
+                if core_too_big(ex):
+                    continue
+                cresets.append(ex[0])
+                cexecs.append(ex[1])
+                cnames.append(name)
+                for e in ex[1]:
+                    key = e["ca"] if e["ca"] != "OTHER" else ("addr:" + e["cb"] if e["cb"] != "OTHER" else
+                                                              ("skipped" if not e["ifasm"] else
+                                                               ("recorded" if e["rec"] else "generic")))
+                    classes[key] = classes.get(key, 0) + 1
+        with Phase("composed validation (AsCore_Trace)"):
+            v2 = tracecheck.validate("AsCore_Trace", cexecs, resets=cresets, timeout=1500, mem="8g")
+        total = sum(classes.values()) or 1
+        rep.part("AsCore_Trace(corpus)", events=v2.events, executions=v2.executions, accepted=v2.accepted,
+                 wall_s=v2.wall, statements_by_class=classes,
+                 share_handled_by_a_named_action=round(1.0 - classes.get("generic", 0) / total, 4))
+        rep.cov["states"] += v2.states
+        rep.cov["transitions"] += v2.generated
+        rep.traces(v2.executions)
+        if not v2.accepted:
+            ev = v2.fail_event or {}
+            skipped_effect = (not ev.get("ifasm", True)) and ev.get("ca") == "OTHER" and (ev.get("chunks") or [])
+            if skipped_effect:
+                rep.violation("golden test %s: a statement in a branch that is not selected had an effect: %s"
+                              % (cnames[v2.fail_exec], v2.detail[:300]), case={"test": cnames[v2.fail_exec], "event": ev},
+                              key={"kind": "skipped-effect", "test": cnames[v2.fail_exec]})
+            else:
+                rep.drift("composed trace of %s: %s" % (cnames[v2.fail_exec], v2.detail[:300]))
     return rep.finish(
         rule="programs = every transition of the CondAsm machine graph (TLC transition cover, shortest prefix + "
              "balancing closers) + TLC-simulated grammatical programs (depth<=4, <=24 statements) rendered with "
